@@ -371,6 +371,10 @@ func genWorld(t *rapid.T, maxFiles int, recCombo, http, shadows bool) *World {
 			feat.FileRef = true
 		}
 	}
+	if multiBias && rapid.IntRange(0, 9).Draw(t, "f:forcepkgs") < 5 {
+		// several packages with ids, so that cross-package links are common in C20 worlds
+		feat.Pkgs, feat.IDs = true, true
+	}
 	feat.ReqCycle = true // only C10 worlds restrict required references
 	feat.SharedDef = rapid.IntRange(0, 99).Draw(t, "f:shareddef") < 35
 	feat.Twins = rapid.IntRange(0, 99).Draw(t, "f:twins") < 25
@@ -1048,6 +1052,16 @@ func (g *genCtx) drawRef(fromDef string) (RefUse, bool) {
 		return RefUse{}, false
 	}
 	tg := ts[rapid.IntRange(0, len(ts)-1).Draw(g.t, "reftarget")]
+	if multiBias && g.pct("hub", 35) {
+		// several referrers of ONE declaration in another file: take the last candidate that
+		// lives in another file (the same one for every referrer)
+		for i := len(ts) - 1; i >= 0; i-- {
+			if ts[i].file != f {
+				tg = ts[i]
+				break
+			}
+		}
+	}
 	g.nprop++
 	ru := RefUse{FromTag: f.Tag, FromDef: fromDef, Prop: fmt.Sprintf("%sr%d", f.Tag, g.nprop), ToTag: tg.file.Tag, ToDef: tg.def}
 	frag := ""
